@@ -191,6 +191,14 @@ def opParams (d : Doc2 Json) : List (Param2 Json) :=
 def sharedVals (d : Doc2 Json) : List (Param2 Json) :=
   d.params.filterMap (fun (_, q) => match q with | .val v => some v | _ => none)
 
+def pathVals (d : Doc2 Json) : List (Param2 Json) :=
+  d.paths.flatMap (fun p => p.params.filterMap (fun q => match q with | .val v => some v | _ => none))
+
+def headerVals (d : Doc2 Json) : List (Param2 Json) :=
+  let ofR : RRef2 Json → List (Param2 Json) := fun r => match r with | .ref _ _ => [] | .val q => q.headers.map (·.2)
+  d.responses.flatMap (fun (_, r) => ofR r) ++
+  d.paths.flatMap (fun p => p.ops.flatMap (fun o => o.responses.flatMap (fun (_, r) => ofR r)))
+
 def respLosesSchema (produces : List String) : RRef2 Json → Bool
   | .ref _ _ => false
   | .val r => r.schema.isSome && !(effProduces produces).contains "application/json"
@@ -200,6 +208,10 @@ def exclusions (d : Doc2 Json) : List String :=
   (if ss.any hasDisc then ["DiscriminatorLost"] else []) ++
   (if ss.any addlRef then ["AddlRefKept"] else []) ++
   (if ss.any addlImpure then ["AddlSubschemaUnconverted"] else []) ++
+  (if ss.any (fun s => !noBinary2 s) ||
+      ((opParams d) ++ (sharedVals d) ++ pathVals d ++ headerVals d).any (fun p => p.loc != "formData" && p.loc != "body" &&
+        (p.cons.ty == some "file" || (p.cons.ty == some "string" && p.cons.fmt == some "binary")))
+   then ["BinaryString"] else []) ++
   (if (opParams d).any (fun p => p.loc == "formData" && p.required) then ["FormRequiredLost"] else []) ++
   (if (opParams d).any (fun p => p.loc == "formData" && p.cons.fmt.isSome && p.cons.ty != some "file") then ["FormFormatLost"] else []) ++
   (if (sharedVals d).any (fun p => p.loc == "formData" && p.cons.ty != some "file") then ["SharedFormParamNotFile"] else []) ++
@@ -260,12 +272,15 @@ def handle (j : Json) : Json :=
   let model := match toV3 d with
     | .error e => jobj [("toV3", "error"), ("why", e)]
     | .ok d3 =>
-      let back := fromV3 d3
-      jobj [("toV3", "ok"), ("validates", Json.bool (validates3 d3)), ("api3", apiJson (api3 d3)),
-            ("back", apiJson (api2 back)), ("badRefs", jstrs (badRefs back))]
+      match fromV3 d3 with
+      | none => jobj [("toV3", "ok"), ("validates", Json.bool (validates3 d3)), ("api3", apiJson (api3 d3)),
+                      ("fromV3", "panic")]
+      | some back =>
+        jobj [("toV3", "ok"), ("validates", Json.bool (validates3 d3)), ("api3", apiJson (api3 d3)),
+              ("fromV3", "ok"), ("back", apiJson (api2 back)), ("badRefs", jstrs (badRefs back))]
   jobj [
     ("model", model),
-    ("spec", jobj [("toV3", "ok"), ("validates", Json.bool true), ("api", apiJson spec), ("badRefs", jstrs [])]),
+    ("spec", jobj [("toV3", "ok"), ("validates", Json.bool true), ("fromV3", "ok"), ("api", apiJson spec), ("badRefs", jstrs [])]),
     ("excl", jstrs excl),
     ("branches", jstrs (branches d excl))]
 
